@@ -37,16 +37,19 @@ Section Entry.
     unfold cfg_pump, pump_of_cfg, set_angles, beam_new in Hle'. cbn [b_wavelength] in Hle'.
     rewrite Hlaw in Hle'. unfold cfg_le in Hle. congruence.
   Qed.
-  (* never panics, whatever the wavelengths: with the validation in place and no failing simplex search *)
-  Theorem validated_no_panic c :
-    scale_order -> searches_total K -> is_panic (try_as_spdc o U K minpos rj true c) = false.
+  (* never panics, whatever the wavelengths: with the validation in place and the searches THIS configuration runs defined *)
+  Theorem validated_no_panic_at c :
+    scale_order -> searches_defined_at o K c -> is_panic (try_as_spdc o U K minpos rj true c) = false.
   Proof.
     intros Hlaw Htot. unfold try_as_spdc. cbn [andb]. destruct (cfg_le o c) eqn:Hle; [reflexivity |].
-    apply no_panic_partial; [exact Htot |].
+    apply no_panic_at; [exact Htot |].
     intros signal Hs. unfold signal_step in Hs. destruct (beam_of_cfg_wavelength num o K _ _ _ _ Hs) as (Hw & _ & _).
     unfold signal_le_pump. rewrite Hw. unfold cfg_pump, pump_of_cfg, set_angles, beam_new. cbn [b_wavelength].
     rewrite Hlaw. exact Hle.
   Qed.
+  Theorem validated_no_panic c :
+    scale_order -> searches_total K -> is_panic (try_as_spdc o U K minpos rj true c) = false.
+  Proof. intros Hlaw Htot. apply validated_no_panic_at; [exact Hlaw | apply searches_total_at; exact Htot]. Qed.
 End Entry.
 
 Arguments scale_order {num} o.
